@@ -453,6 +453,16 @@ def check_comparison(ctx):
                     any_call = (c_, t_.target)
         if any_call is not None:
             return _check_comparison_any(ctx, m, f, any_call[0], any_call[1])
+    _check_equality_only_for_strings(ctx, m, f)
+    # the category an annotation accepts is its *own* `dtypes` (for a nested annotation: the intersection with the inner one); a table read
+    # through the category class (`cls.dtype.<table>`) is the outer category's and ignores the intersection
+    cls_p0 = f.params[0]
+    for x in walk_scope(f.node):
+        if isinstance(x, ast.Attribute) and isinstance(x.value, ast.Attribute) and x.value.attr == "dtype" and norm(x.value.value) == cls_p0 and not x.attr.startswith("__"):
+            ctx.bad("C03.3", f, x, f"the dtype stage reads `{norm(x)}`: a table of the category class the annotation was written with, not the annotation's own `dtypes` -- a nested annotation "
+                    "(`Inexact[Float32[A, 'n'], 'b']`) is narrowed to the intersection, which this table does not know", construct=f"dtype table of the outer category: {norm(x)}")
+    if not loops:
+        _check_names_compiled_to_regex(ctx, m, f)
     need(len(loops) == 1, "__instancecheck_str__: loop over cls.dtypes not found")
     lp = loops[0]
     var = lp.target.id
@@ -543,6 +553,93 @@ def check_comparison(ctx):
         ctx.bad("C03.3", f, lp, "the dtype loop is not guarded by the any-dtype sentinel test", construct="sentinel guard")
     else:
         ctx.ok("C03.3", f.qualname, "dtype test skipped only for the any-dtype sentinel")
+
+
+def _check_equality_only_for_strings(ctx, m, f):
+    """An entry of `cls.dtypes` is a name *or a compiled regex*: `dtype == entry` is only meaningful under the test that the entry is a
+    string.  A fast path that compares the one entry of a single-entry category by equality (`(d,) = cls.dtypes; if dtype != d`) makes a
+    category that consists of one regex reject every array."""
+    cls_p = f.params[0]
+    elems = set()
+    for n in walk_scope(f.node):
+        if isinstance(n, ast.For) and norm(n.iter) == f"{cls_p}.dtypes" and isinstance(n.target, ast.Name):
+            elems.add(n.target.id)
+        if isinstance(n, ast.Assign) and norm(n.value) == f"{cls_p}.dtypes" and isinstance(n.targets[0], (ast.Tuple, ast.List)):
+            elems |= {e.id for e in n.targets[0].elts if isinstance(e, ast.Name)}
+        if isinstance(n, ast.Assign) and isinstance(n.value, ast.Subscript) and norm(n.value.value) == f"{cls_p}.dtypes" and isinstance(n.targets[0], ast.Name):
+            elems.add(n.targets[0].id)
+    parents = {}
+    for p_ in ast.walk(f.node):
+        for c_ in ast.iter_child_nodes(p_):
+            parents[id(c_)] = p_
+    n_cmp = 0
+    for c in walk_scope(f.node):
+        if not (isinstance(c, ast.Compare) and len(c.ops) == 1 and isinstance(c.ops[0], (ast.Eq, ast.NotEq))):
+            continue
+        sides = [c.left, c.comparators[0]]
+        ent = next((x for x in sides if (isinstance(x, ast.Name) and x.id in elems) or (isinstance(x, ast.Subscript) and norm(x.value) == f"{cls_p}.dtypes")), None)
+        other = next((x for x in sides if x is not ent), None)
+        if ent is None or not (isinstance(other, ast.Name) and other.id == "dtype"):
+            continue
+        n_cmp += 1
+        guarded = False
+        q = c
+        while id(q) in parents:
+            par = parents[id(q)]
+            if isinstance(par, ast.If) and any(q is y for y in par.body):
+                t_ = norm(par.test)
+                if t_ in (f"type({norm(ent)}) is str", f"isinstance({norm(ent)}, str)", f"type({norm(ent)}) == str"):
+                    guarded = True
+            if isinstance(par, ast.If) and any(q is y for y in par.orelse):
+                t_ = norm(par.test)
+                if t_ in (f"type({norm(ent)}) is not str", f"not isinstance({norm(ent)}, str)", f"type({norm(ent)}) != str"):
+                    guarded = True
+            if isinstance(par, ast.BoolOp) and isinstance(par.op, ast.And) and any(norm(v_) in (f"type({norm(ent)}) is str", f"isinstance({norm(ent)}, str)") for v_ in par.values):
+                guarded = True
+            if isinstance(par, ast.IfExp) and q is par.body and norm(par.test) in (f"type({norm(ent)}) is str", f"isinstance({norm(ent)}, str)"):
+                guarded = True
+            q = par
+        if not guarded:
+            ctx.bad("C03.3", f, c, f"`{norm(c)}` compares the dtype name with an entry of `{cls_p}.dtypes` by equality without knowing that the entry is a string: an entry may be a "
+                    "compiled regex (a user category `dtypes = re.compile(..)`), which never equals a name, so such a category rejects every array",
+                    construct=f"unguarded equality with a dtypes entry: {norm(c)}")
+    return n_cmp
+
+
+def _check_names_compiled_to_regex(ctx, m, f):
+    """No loop over `cls.dtypes` any more: if the check matches the dtype name against patterns kept in another attribute of the annotation,
+    and that attribute is computed by `re.compile` of an alternation of the *plain names* without an end anchor, then `.match` / `.search`
+    turned name equality into "starts with / contains a name of the category" ('float8_e4m3fn' accepts 'float8_e4m3fnuz').  A positive
+    witness only: anything else falls through to the no-verdict of the caller."""
+    cls_p = f.params[0]
+    attrs = set()
+    for lp_ in [n for n in walk_scope(f.node) if isinstance(n, ast.For) and isinstance(n.iter, ast.Attribute) and norm(n.iter.value) == cls_p and isinstance(n.target, ast.Name)]:
+        for c in ast.walk(lp_):
+            if isinstance(c, ast.Call) and isinstance(c.func, ast.Attribute) and c.func.attr in ("match", "search") and norm(c.func.value) == lp_.target.id:
+                attrs.add((lp_.iter.attr, c.func.attr, lp_))
+    for c in walk_scope(f.node):
+        if isinstance(c, ast.Call) and isinstance(c.func, ast.Attribute) and c.func.attr in ("match", "search") and isinstance(c.func.value, ast.Attribute) and norm(c.func.value.value) == cls_p:
+            attrs.add((c.func.value.attr, c.func.attr, c))
+    for attr, how, where in sorted(attrs, key=lambda t: t[0]):
+        for g_ in m.all_functions(include_typeguard=False):
+            if g_.module.short != "_array_types":
+                continue
+            for rc in ast.walk(g_.node):
+                if not (isinstance(rc, ast.Call) and norm(rc.func) in ("re.compile",) and rc.args):
+                    continue
+                pat = rc.args[0]
+                joins = [j for j in ast.walk(pat) if isinstance(j, ast.Call) and isinstance(j.func, ast.Attribute) and j.func.attr == "join" and isinstance(j.func.value, ast.Constant) and j.func.value.value == "|"]
+                if not joins:
+                    continue
+                lits = "".join(x.value for x in ast.walk(pat) if isinstance(x, ast.Constant) and isinstance(x.value, str))
+                anchored = "$" in lits or "\\Z" in lits or "\\z" in lits
+                # does the compiled alternation reach the attribute? (the function's result, or the attribute's own value, in _make_array's namespace)
+                reaches = any(isinstance(k, ast.keyword) and k.arg == attr for k in ast.walk(m.func("_array_types._make_array").node)) or \
+                    any(isinstance(t_, ast.Attribute) and t_.attr == attr and isinstance(t_.ctx, ast.Store) for t_ in ast.walk(g_.node))
+                if reaches and not anchored:
+                    ctx.bad("C03.3", f, where, f"the dtype name is matched with `.{how}` against `{cls_p}.{attr}`, which {g_.qualname} compiles from an alternation of the plain dtype names "
+                            f"(`{short(rc, 50)}`) without an end anchor: equality became \"starts with a name of the category\" ('float8_e4m3fn' accepts 'float8_e4m3fnuz', "
+                            "a user category 'q8' accepts 'q8_k')", construct=f"dtype names compiled to an unanchored alternation ({attr})")
 
 
 def _check_comparison_any(ctx, m, f, call, pred):
@@ -898,6 +995,8 @@ def check_no_prefix_regex_for_strings(ctx):
 
 # ------------------------------------------------------------------------ C03.9
 def check_dtype_verdict_not_remembered(ctx):
+    from . import c05
+
     """C03.9: whether an array's dtype is in the category is decided from that array's dtype on every check.  A dtype name or a
     verdict derived from it that the check stores on the annotation class / a module-level object ("last dtype seen" slots, per-class
     verdict caches filled at check time) is a second source of the answer: written by two statements, it can be read half-updated by
@@ -948,6 +1047,21 @@ def check_dtype_verdict_not_remembered(ctx):
             if not isinstance(root, ast.Name):
                 continue
             shared = root.id == cls or m.resolve_name(f, root.id).kind == "modvar"
+            if shared and isinstance(t, ast.Subscript) and isinstance(t.value, ast.Name):
+                # a memo of the pure verdict function, keyed by *both* of its determinants -- the dtype name and the category (the class or its
+                # dtypes tuple, as objects) -- can only ever answer what the loop would have answered: not a second source.  (Keys through
+                # id() / str() / repr() / hash() are lossy: C20.7 / C13.9.)
+                key = t.slice
+                if isinstance(key, ast.Name):
+                    ds_ = c05._assignments_to(f, key.id)
+                    if len(ds_) == 1 and ds_[0][1] is not None and ds_[0][2] is None:
+                        key = ds_[0][1]
+                lossy = any(isinstance(x, ast.Call) and norm(x.func) in ("id", "str", "repr", "hash") for x in ast.walk(key))
+                names_cat = any(isinstance(x, ast.Name) and x.id == cls for x in ast.walk(key))
+                names_dtype = any(isinstance(x, ast.Name) and x.id in tainted for x in ast.walk(key))
+                if names_cat and names_dtype and not lossy:
+                    ctx.ok("C03.9", f.qualname, f"`{short(st, 50)}`: a memo keyed by the category and the dtype name themselves (a pure function of its key)")
+                    continue
             if shared and (is_tainted(val) or (isinstance(t, ast.Subscript) and is_tainted(t.slice))):
                 n += 1
                 ctx.bad("C03.9", f, st, f"`{short(st, 60)}` remembers a dtype name / dtype verdict of the array being checked on "
